@@ -88,6 +88,7 @@ class C11(Machine):
         if cfg["attached"]:
             self.ds.attach_taxon_namespace(self.nss[0])
         self.removed = []
+        self.ds_out_of_step = False
         self.foreign = dendropy.TaxonNamespace(LABELS, is_case_sensitive=True, label="F")
         clock = stepclock.get_clock()
         names = []
@@ -409,7 +410,9 @@ class C11(Machine):
                 if any(o is not L and any(t in o._trees for t in L._trees) for o in self.lists):
                     return "skip"
                 if any(d is L for d in self.ds.tree_lists):
-                    return "skip"      # moving a component away behind the data set's back is the caller's doing
+                    # moving a component away behind the data set's back is the caller's doing: the data set is out of step
+                    # until its namespaces are unified again - which has to bring this component back in
+                    self.ds_out_of_step = True
                 L.migrate_taxon_namespace(ns_t, unify_taxa_by_label=st["unify"])
                 if L.taxon_namespace is not ns_t:
                     rec.violation("CLOSURE", {"op": op, "what": "list_namespace"}, "migrate_taxon_namespace did not switch the list's namespace")
@@ -594,6 +597,7 @@ class C11(Machine):
             if len(set(id(c.taxon_namespace) for c in comps)) > 1:
                 rec.violation("CLOSURE", {"op": op, "what": "component_namespace"}, "unify_taxon_namespaces left components on different namespaces")
                 raise StopRun()
+            self.ds_out_of_step = False
             return "imported"
         raise ValueError(op)
 
@@ -623,7 +627,7 @@ class C11(Machine):
                     bad("sequence_taxon", "matrix #%d has a sequence for taxon %r outside its namespace" % (k, taxon.label))
         ds = self.ds
         att = ds.attached_taxon_namespace
-        for c in list(ds.tree_lists) + list(ds.char_matrices):
+        for c in ([] if self.ds_out_of_step else list(ds.tree_lists) + list(ds.char_matrices)):
             if att is not None and c.taxon_namespace is not att:
                 bad("dataset_attached", "data set with an attached namespace holds a %s over another namespace" % type(c).__name__)
             if not any(c.taxon_namespace is n for n in ds.taxon_namespaces):
